@@ -417,5 +417,9 @@ func verifyMycatPartitionPaddingModShard(padFromStr, padLengthStr, modBeginStr, 
 	if padLength < (modEnd - modBegin) {
 		return fmt.Errorf("invalid padding mod, padLength is less than modBegin - modEnd: %d, %d, %d", padLength, modBegin, modEnd)
 	}
+	// the mod segment [modBegin, modEnd) is cut out of a key padded to padLength characters
+	if padLength < modEnd {
+		return fmt.Errorf("invalid padding mod, padLength is less than modEnd: %d, %d", padLength, modEnd)
+	}
 	return nil
 }
